@@ -30,6 +30,7 @@
      for names all of whose bindings create a fresh object and which reach no other name, so that rebinding the local is
      an exact reading. Calls of other functions are opaque ([ECall]): arguments are bound to the callee's parameters as
      Python does (signature read from the source in the same run); the callee receives one value per parameter.
+   * `continue` ([SContinue], emitted only inside a loop body) goes on with the next element / the next test; no `break`.
    * A while loop runs under the evaluator's [fuel] (iterations); running out of fuel is [UNM]. *)
 From Coq Require Import String.
 From Coq Require Import List Bool Arith ZArith QArith Qabs Qminmax Qround.
@@ -61,6 +62,7 @@ Inductive pv :=
 | VArr2 (M : list (list nat))                   (* 2-d integer ndarray, entries >= 0 *)
 | VSlice (lo hi : option Z)                     (* slice(lo, hi) *)
 | VDDict (d : pv) (items : list (Z * pv))       (* defaultdict(lambda: d) with integer keys *)
+| VBMat (r c : nat) (f : nat -> nat -> bool)    (* 2-d boolean array of shape (r, c): its entries *)
 | VTy (t : string)                              (* the type objects int, float, np.uint8 (dtype arguments) *)
 | VUnbound.
 
@@ -288,6 +290,16 @@ Definition as_qrows (v : pv) : option (list (list Q)) :=
   | VList l => omap (fun r => match r with VList c | VTup c => omap as_num c | VQVec c => Some c | _ => None end) l
   | _ => None end.
 
+(* a sequence of non-negative integers: an integer array or a Python list of ints *)
+Definition as_nvec (v : pv) : option (list nat) :=
+  match v with
+  | VNVec l => Some l
+  | VList l => omap (fun x => match x with VInt z => if (z <? 0)%Z then None else Some (Z.to_nat z) | _ => None end) l
+  | _ => None end.
+(* the True cells of a boolean matrix in row-major order (np.where / np.nonzero) *)
+Definition true_cells (r c : nat) (f : nat -> nat -> bool) : list (nat * nat) :=
+  filter (fun ij => f (fst ij) (snd ij)) (list_prod (seq 0 r) (seq 0 c)).
+
 (* builtins, methods (".name", the receiver first) and NumPy / SciPy / itertools functions f(args, **kws) *)
 Section Builtins.
 Variable argsort : list nat -> list nat.
@@ -344,6 +356,34 @@ Definition builtin (f : string) (args : list pv) (kws : list (string * pv)) : ou
             | [] => UNM
             | _ => ls <~ iter_all args ;; OK (VList (map VTup (transpose_min ls))) end
     | _ => UNM end
+  else if f =? "zip*" then                                    (* zip( *x ) *)
+    match args, kws with
+    | [v], [] => els <~ iter_elems v ;; ls <~ iter_all els ;; OK (VList (map VTup (transpose_min ls)))
+    | _, _ => UNM end
+  else if f =? "slice*" then                                  (* slice( *x ) *)
+    match args, kws with
+    | [v], [] => els <~ iter_elems v ;;
+                 match els with
+                 | [VInt hi] => OK (VSlice None (Some hi))
+                 | [VInt lo; VInt hi] => OK (VSlice (Some lo) (Some hi))
+                 | _ => UNM end
+    | _, _ => UNM end
+  else if f =? "np.equal.outer" then
+    match args, kws with
+    | [a; b], [] => match as_nvec a, as_nvec b with
+                    | Some x, Some y => OK (VBMat (List.length x) (List.length y) (fun i j => Nat.eqb (nth i x 0) (nth j y 0)))
+                    | _, _ => UNM end
+    | _, _ => UNM end
+  else if f =? "np.triu" then
+    match args, kws with
+    | [VBMat r c g], [] => OK (VBMat r c (fun i j => Nat.leb i j && g i j))
+    | _, _ => UNM end
+  else if f =? "np.where" then
+    match args, kws with
+    | [VBMat r c g], [] => OK (VTup [VNVec (map fst (true_cells r c g)); VNVec (map snd (true_cells r c g))])
+    | _, _ => UNM end
+  else if f =? "scipy.sparse.csr_matrix" then
+    match args, kws with [VSp m], [] => OK (VSp m) | _, _ => UNM end
   else if f =? "slice" then
     match args, kws with
     | [VInt hi], [] => OK (VSlice None (Some hi))
@@ -395,6 +435,7 @@ Definition builtin (f : string) (args : list pv) (kws : list (string * pv)) : ou
     | _, _ => UNM end
   else if f =? "np.asarray" then
     match args, kws with
+    | [VQMat m], [] => OK (VQMat m)                            (* already an array *)
     | [v], [] => match as_qrows v with
                  | Some (r :: rs) =>                          (* a non-empty list of rows of equal length *)
                      if forallb (fun r' => Nat.eqb (List.length r') (List.length r)) rs then OK (VQMat (r :: rs)) else UNM
@@ -450,6 +491,7 @@ Inductive stmt :=
 | SWhile (c : exp) (body : list stmt)
 | SReturn (e : exp)
 | SRaise (e : exn)
+| SContinue
 | SPass.
 
 Record fdef := { f_params : list (string * option exp);
@@ -587,7 +629,7 @@ Fixpoint eval (en : env) (e : exp) {struct e} : out pv :=
   end.
 
 (* ---- statements ---- *)
-Inductive sres := SNorm (en : env) | SRet (v : pv) | SExn (e : exn) | SUnm.
+Inductive sres := SNorm (en : env) | SRet (v : pv) | SExn (e : exn) | SCnt (en : env) | SUnm.
 Definition lift_e {A} (r : out A) (k : A -> sres) : sres :=
   match r with OK a => k a | EXN e => SExn e | UNM => SUnm end.
 Definition set1 (x : string) (v : pv) (en : env) : sres :=
@@ -605,13 +647,13 @@ Definition bind_target (xs : list string) (v : pv) (en : env) : sres :=
 Fixpoint for_loop (step : pv -> env -> sres) (els : list pv) (en : env) : sres :=
   match els with
   | [] => SNorm en
-  | v :: t => match step v en with SNorm en' => for_loop step t en' | r => r end
+  | v :: t => match step v en with SNorm en' | SCnt en' => for_loop step t en' | r => r end
   end.
 Fixpoint while_loop (cond : env -> out bool) (body : env -> sres) (k : nat) (en : env) : sres :=
   match k with
   | O => SUnm
   | S k' => lift_e (cond en) (fun t =>
-              if t then match body en with SNorm en' => while_loop cond body k' en' | r => r end else SNorm en)
+              if t then match body en with SNorm en' | SCnt en' => while_loop cond body k' en' | r => r end else SNorm en)
   end.
 Definition run_block (f : stmt -> env -> sres) : list stmt -> env -> sres :=
   fix go (l : list stmt) (en : env) : sres :=
@@ -642,6 +684,7 @@ Fixpoint exec (s : stmt) (en : env) {struct s} : sres :=
       while_loop (fun en' => v <~ eval en' c ;; truth v) (run_block exec body) fuel en
   | SReturn e => lift_e (eval en e) SRet
   | SRaise x => SExn x
+  | SContinue => SCnt en
   | SPass => SNorm en
   end.
 Definition exec_block : list stmt -> env -> sres := run_block exec.
@@ -651,6 +694,6 @@ Definition init_env (f : fdef) (args : list pv) : env :=
 Definition run_fun (f : fdef) (args : list pv) : out pv :=
   if Nat.eqb (List.length args) (List.length (f_params f)) then
     match exec_block (f_body f) (init_env f args) with
-    | SNorm _ => OK VNone | SRet v => OK v | SExn e => EXN e | SUnm => UNM end
+    | SNorm _ => OK VNone | SRet v => OK v | SExn e => EXN e | SCnt _ | SUnm => UNM end
   else UNM.
 End Eval.
